@@ -51,88 +51,137 @@ Inductive outcome :=
 | OChild (ret : nat) (task : nat)   (* fork_processes returned `ret` in a child whose _task_id is `task` *)
 | OExit (code : Z)                  (* sys.exit(code) in the parent *)
 | OTooMany                          (* RuntimeError("Too many child restarts, giving up") *)
-| OOutOfForks                       (* os.fork() raised (oracle exhausted) *)
-| OOutOfWaits                       (* os.wait() raised (oracle exhausted) *)
+| OForkErr (k : nat)                (* os.fork() raised; k names the exception (0 = oracle exhausted,
+                                       1 = BlockingIOError/EAGAIN, 2 = OSError/ENOMEM); it propagates *)
+| OWaitErr (k : nat)                (* os.wait() raised (0 = oracle exhausted, 1 = ChildProcessError/ECHILD,
+                                       2 = InterruptedError/EINTR, 3 = other OSError); it propagates *)
 | OAssert.                          (* assert _task_id is None *)
 
 Definition pre (es : list event) (x : list event * outcome) : list event * outcome :=
   (es ++ fst x, snd x).
 
-Definition exit_log (st : Z) : logkind :=
-  if WIFSIGNALED st then LSignal (WTERMSIG st)
-  else if negb (WEXITSTATUS st =? 0) then LStatus (WEXITSTATUS st)
-  else LNormal.
+(* ---------- description of the decisions taken by the source text.  translators/c41_src.py
+   regenerates one of these from tornado/process.py into Gen/C41_src.v on every run ---------- *)
+Inductive stest := TSignaled      (* os.WIFSIGNALED(status) *)
+                 | TExitNonzero   (* os.WEXITSTATUS(status) != 0 *)
+                 | TExitZero.     (* os.WEXITSTATUS(status) == 0 *)
+Inductive saction := ARestartSignal   (* warn "killed by signal WTERMSIG", fall through to the restart *)
+                   | ARestartStatus   (* warn "exited with status WEXITSTATUS", fall through to the restart *)
+                   | ANormal.         (* info "exited normally"; continue *)
+Inductive cmpop := CGt | CGe.
+Record fp_desc := {
+  d_default_restarts : Z;                (* if max_restarts is None: max_restarts = <this> *)
+  d_cpu_bound : Z;                       (* num_processes is None or num_processes <= <this>  ->  cpu_count() *)
+  d_chain : list (stest * saction);      (* the if / elif branches, in order *)
+  d_else : saction;                      (* the else branch *)
+  d_budget_cmp : cmpop;                  (* num_restarts += 1; if num_restarts <cmp> max_restarts: raise *)
+  d_exit_code : Z                        (* sys.exit(<this>) *)
+}.
 
-(* the code's if / elif / else chain: restart unless "exited normally" *)
-Definition abnormal_exit (st : Z) : bool := WIFSIGNALED st || negb (WEXITSTATUS st =? 0).
+Definition desc_expected : fp_desc :=
+  {| d_default_restarts := 100; d_cpu_bound := 0;
+     d_chain := [(TSignaled, ARestartSignal); (TExitNonzero, ARestartStatus)];
+     d_else := ANormal; d_budget_cmp := CGt; d_exit_code := 0 |}.
 
-(* ---------- the `while children:` loop; one os.wait() per iteration ---------- *)
-Fixpoint supervise (maxr : Z) (waits : list (Z * Z)) (fs : list Z) (ch : cmap) (nr : Z)
-  {struct waits} : list event * outcome :=
+Definition eval_test (t : stest) (st : Z) : bool :=
+  match t with
+  | TSignaled => WIFSIGNALED st
+  | TExitNonzero => negb (WEXITSTATUS st =? 0)
+  | TExitZero => WEXITSTATUS st =? 0
+  end.
+Fixpoint pick (chain : list (stest * saction)) (els : saction) (st : Z) : saction :=
+  match chain with
+  | [] => els
+  | (t, a) :: r => if eval_test t st then a else pick r els st
+  end.
+Definition action_log (a : saction) (st : Z) : logkind :=
+  match a with
+  | ARestartSignal => LSignal (WTERMSIG st)
+  | ARestartStatus => LStatus (WEXITSTATUS st)
+  | ANormal => LNormal
+  end.
+Definition action_restarts (a : saction) : bool := match a with ANormal => false | _ => true end.
+Definition classify (d : fp_desc) (st : Z) : saction := pick (d_chain d) (d_else d) st.
+Definition over_budget (d : fp_desc) (nr maxr : Z) : bool :=
+  match d_budget_cmp d with CGt => nr >? maxr | CGe => nr >=? maxr end.
+
+(* ---------- the `while children:` loop; one os.wait() per iteration.
+   ek = (which exception os.fork raises, which exception os.wait raises) once its oracle is used up ---------- *)
+Fixpoint supervise_d (d : fp_desc) (ek : nat * nat) (maxr : Z) (waits : list (Z * Z)) (fs : list Z)
+         (ch : cmap) (nr : Z) {struct waits} : list event * outcome :=
   match ch with
-  | [] => ([], OExit 0)                         (* sys.exit(0) *)
+  | [] => ([], OExit (d_exit_code d))            (* sys.exit(0) *)
   | _ :: _ =>
     match waits with
-    | [] => ([], OOutOfWaits)
+    | [] => ([], OWaitErr (snd ek))              (* os.wait() raises: propagates *)
     | (pid, st) :: ws =>
       pre [EWait pid st]
       (match cm_find pid ch with
-       | None => supervise maxr ws fs ch nr     (* if pid not in children: continue *)
+       | None => supervise_d d ek maxr ws fs ch nr     (* if pid not in children: continue *)
        | Some id =>
-         let ch' := cm_remove pid ch in         (* id = children.pop(pid) *)
-         pre [ELog id pid (exit_log st)]
-         (if abnormal_exit st then
+         let ch' := cm_remove pid ch in               (* id = children.pop(pid) *)
+         pre [ELog id pid (action_log (classify d st) st)]
+         (if action_restarts (classify d st) then
             (* num_restarts += 1; if num_restarts > max_restarts: raise RuntimeError *)
-            if nr + 1 >? maxr then ([], OTooMany)
+            if over_budget d (nr + 1) maxr then ([], OTooMany)
             else
               (* new_id = start_child(id) *)
               match fs with
-              | [] => ([], OOutOfForks)
+              | [] => ([], OForkErr (fst ek))         (* os.fork() raises: propagates *)
               | p :: fs' =>
                 if p =? 0 then ([EFork id 0], OChild id id)   (* child: _task_id = id; return id *)
-                else pre [EFork id p] (supervise maxr ws fs' (cm_set p id ch') (nr + 1))
+                else pre [EFork id p] (supervise_d d ek maxr ws fs' (cm_set p id ch') (nr + 1))
               end
-          else supervise maxr ws fs ch' nr)     (* exited normally: continue *)
+          else supervise_d d ek maxr ws fs ch' nr)    (* exited normally: continue *)
        end)
     end
   end.
 
 (* ---------- `for i in range(num_processes): start_child(i)` then the loop ---------- *)
-Fixpoint start_all (maxr : Z) (waits : list (Z * Z)) (ids : list nat) (fs : list Z) (ch : cmap)
-  {struct ids} : list event * outcome :=
+Fixpoint start_all_d (d : fp_desc) (ek : nat * nat) (maxr : Z) (waits : list (Z * Z)) (ids : list nat)
+         (fs : list Z) (ch : cmap) {struct ids} : list event * outcome :=
   match ids with
-  | [] => supervise maxr waits fs ch 0
+  | [] => supervise_d d ek maxr waits fs ch 0
   | i :: ids' =>
     match fs with
-    | [] => ([], OOutOfForks)
+    | [] => ([], OForkErr (fst ek))
     | pid :: fs' =>
       if pid =? 0 then ([EFork i 0], OChild i i)
-      else pre [EFork i pid] (start_all maxr waits ids' fs' (cm_set pid i ch))
+      else pre [EFork i pid] (start_all_d d ek maxr waits ids' fs' (cm_set pid i ch))
     end
   end.
 
 Record result := { r_trace : list event; r_out : outcome; r_task : option nat }.
 
 (* num_processes None or <= 0  ->  cpu_count() *)
-Definition eff_procs (nprocs : option Z) (cpu : nat) : nat :=
+Definition eff_procs_d (d : fp_desc) (nprocs : option Z) (cpu : nat) : nat :=
   match nprocs with
   | None => cpu
-  | Some z => if z <=? 0 then cpu else Z.to_nat z
+  | Some z => if z <=? d_cpu_bound d then cpu else Z.to_nat z
   end.
 (* max_restarts None -> 100 *)
-Definition eff_budget (maxr : option Z) : Z :=
-  match maxr with None => 100 | Some m => m end.
+Definition eff_budget_d (d : fp_desc) (maxr : option Z) : Z :=
+  match maxr with None => d_default_restarts d | Some m => m end.
 
 (* pre_task: the value of the module global _task_id before the call
    (Some t = fork_processes called again inside a worker) *)
-Definition fork_processes (pre_task : option nat) (nprocs : option Z) (cpu : nat)
-           (maxr : option Z) (fs : list Z) (waits : list (Z * Z)) : result :=
+Definition fork_processes_d (d : fp_desc) (ek : nat * nat) (pre_task : option nat) (nprocs : option Z)
+           (cpu : nat) (maxr : option Z) (fs : list Z) (waits : list (Z * Z)) : result :=
   match pre_task with
   | Some t => {| r_trace := []; r_out := OAssert; r_task := Some t |}
   | None =>
-    let n := eff_procs nprocs cpu in
-    let x := start_all (eff_budget maxr) waits (seq 0 n) fs [] in
+    let n := eff_procs_d d nprocs cpu in
+    let x := start_all_d d ek (eff_budget_d d maxr) waits (seq 0 n) fs [] in
     {| r_trace := EStart n :: fst x;
        r_out := snd x;
        r_task := match snd x with OChild _ t => Some t | _ => None end |}
   end.
+
+(* ---------- the model the theorems are about: the decisions of the source as read on 2026-09 ---------- *)
+Definition exit_log (st : Z) : logkind := action_log (classify desc_expected st) st.
+Definition abnormal_exit (st : Z) : bool := action_restarts (classify desc_expected st).
+Definition supervise := supervise_d desc_expected.
+Definition start_all := start_all_d desc_expected.
+Definition eff_procs := eff_procs_d desc_expected.
+Definition eff_budget := eff_budget_d desc_expected.
+Definition fork_processes := fork_processes_d desc_expected.
